@@ -96,7 +96,11 @@ fn worker(args: &[String]) -> i32 {
         jobs.retain(|j| j.name.contains(&f));
     }
     // wall cap per job; in the quick tier the whole check stays within ~100 s even on a loaded machine
-    let cap_s = if thorough { env_u64("VERIF_THOROUGH_CAP_S", 240) as f64 } else { (env_u64("VERIF_QUICK_CAP_S", 18) as f64).min(100.0 / jobs.len().max(1) as f64) };
+    let cap_s = if thorough { env_u64("VERIF_THOROUGH_CAP_S", 240) as f64 } else {
+        // jobs that enumerate a small fixed grid finish in a second or two: the ~100 s budget is shared by the others
+        let sampled = jobs.iter().filter(|j| j.quick > 1000).count().max(1);
+        (env_u64("VERIF_QUICK_CAP_S", 18) as f64).min(100.0 / sampled as f64)
+    };
     let scale_pct = env_u64("VERIF_SCALE_PCT", 100);
     let mut agg = Agg::default();
     let start = Instant::now();
